@@ -751,4 +751,6 @@ for K in (_Both, _OnlyMeta, _OnlyClassGetitem, _Neither):
         return SObj(_Expr, f_result=fn(*args, **kwargs), f_bound=[])
 
     c.models = NATIVE_TRAITS + [(_Prep.apply, _apply_sub_k), (_Prep.subcall, _subcall_k)]
+    # the branch may wrap the selection in a Value that carries the operands' statements in front of it (c03_subscript)
+    c.interp_flags = {"class_call_models": {OUT.Value: lambda it, args, kw: SObj(_Expr, f_result=args[0], f_bound=list(args[1]))}}
     con.cases.append(c)
